@@ -11,7 +11,7 @@ def split_signed(frame: Term) -> Optional[Tuple[Tuple[Term, ...], bool]]:
     """(body atoms, signature-covers-exactly-the-body) for a written value, or None."""
     if not T.is_seq(frame) or frame[1] != "raw":
         return None
-    atoms = frame[2]
+    atoms = fold_signature(frame[2])
     if not atoms or atoms[-1][0] != "sig":
         return None
     body = atoms[:-1]
@@ -19,6 +19,31 @@ def split_signed(frame: Term) -> Optional[Tuple[Tuple[Term, ...], bool]]:
         return body, False
     inner = T.strip_case(atoms[-1][1][2])
     return body, inner == T.strip_case(body)
+
+
+def fold_signature(atoms: Tuple[Term, ...]) -> Tuple[Term, ...]:
+    """A frame whose last four bytes are spelled out as the protocol signature of some bytes X,
+           LE16(crc_hqx(X, 0x1021)) ++ LE16(crc_hqx(LE16(crc_hqx(X, 0x1021)) ++ 0x30*32, 0x1021))
+    (C04's normal form, computed on bytes instead of through sign_packet_with_crc_key) carries the same ("sig", X)
+    atom the signer's summary yields.  Whether X is exactly what precedes it is judged by the caller."""
+    if len(atoms) < 5:
+        return atoms
+    a0, a1, b0, b1 = atoms[-4:]
+    if not all(isinstance(x, tuple) and len(x) == 3 and x[0] == "hbi" for x in (a0, a1, b0, b1)):
+        return atoms
+    c1, c2 = a0[1], b0[1]
+    if (a0[2], a1[2], b0[2], b1[2]) != (0, 1, 0, 1) or a1[1] != c1 or b1[1] != c2:
+        return atoms
+    def crc_of(t: Term) -> Optional[Term]:
+        if isinstance(t, tuple) and t[:2] == ("app", "binascii.crc_hqx") and len(t) == 4 and t[3] == T.c(0x1021) and T.is_seq(t[2]) and t[2][1] == "raw":
+            return t[2]
+        return None
+    x, key = crc_of(c1), crc_of(c2)
+    if x is None or key is None:
+        return atoms
+    if T.normalise_atoms(tuple(key[2])) != T.normalise_atoms((("hbi", c1, 0), ("hbi", c1, 1), ("L", "30" * 32))):
+        return atoms
+    return tuple(atoms[:-4]) + (("sig", ("seq", "s", tuple(x[2]))),)
 
 
 def field(body: Tuple[Term, ...], lo: int, hi: int) -> Term:
